@@ -323,6 +323,9 @@ type genSpec struct {
 	// AfterFailed n>0: two Encode calls that fail are made first (a string that is not UTF-8 in the last message;
 	// a writer fault on the n-th write)
 	AfterFailed int
+	// LongN > 0: Msgs holds two field sets; the slice gets LongN messages with the first set, and the message at
+	// index LongAt carries the second set as well (a field present in one message of a long run only)
+	LongN, LongAt int
 }
 
 type genFieldSet struct {
@@ -350,6 +353,14 @@ func (g genSpec) build() (*fit.File, []reflect.Value, error) {
 	}
 	p := prof()
 	var msgs []reflect.Value
+	if g.LongN > 0 && len(g.Msgs) == 2 {
+		long := make([][]genFieldSet, g.LongN)
+		for i := range long {
+			long[i] = g.Msgs[0]
+		}
+		long[g.LongAt] = append(append([]genFieldSet{}, g.Msgs[0]...), g.Msgs[1]...)
+		g.Msgs = long
+	}
 	for mi, fs := range g.Msgs {
 		mv := fit.VerifNewMesg(fit.MesgNum(g.Slot.Mesg))
 		for _, s := range fs {
@@ -540,6 +551,51 @@ func pairSpecs(gs genSlot) []genSpec {
 			}
 			out = append(out, genSpec{Slot: gs, Msgs: [][]genFieldSet{{{a.Slot, 0}, {b.Slot, 1 % 2}}}, HdrCRC: k&1 == 0, Big: k&2 != 0, Desc: fmt.Sprintf("pair %d,%d", a.Num, b.Num)})
 			k++
+		}
+	}
+	return out
+}
+
+// longSliceSpecs: message slices long enough to cross the powers of two a block size, a narrow counter or a cache
+// capacity sits at, with one field that is set in a single message only — at the index just below, at and above the
+// power, as the last message and followed by two more.
+func longSliceSpecs(thorough bool) []genSpec {
+	var out []genSpec
+	p := prof()
+	for _, gs := range genSlots() {
+		if gs.Common != "" || !gs.Slot.IsSlice {
+			continue
+		}
+		var usable []fit.VerifField
+		for _, e := range p.byMesg[gs.Mesg] {
+			probe := fit.VerifNewMesg(fit.MesgNum(gs.Mesg))
+			if !e.Array && e.Kind == kindNative && e.Base != fitmodel.String && genValue(probe.Field(e.Sindex), e, 0, 0) {
+				usable = append(usable, e)
+			}
+			if len(usable) == 2 {
+				break
+			}
+		}
+		if len(usable) < 2 {
+			continue
+		}
+		ats := []int{255, 4096}
+		if gs.Mesg == 20 && gs.FT == byte(fit.FileTypeActivity) {
+			ats = []int{254, 255, 256, 4095, 4096, 4097, 8192, 8193, 65535, 65536}
+			if thorough {
+				ats = append(ats, 1023, 1024, 16383, 16384, 32768, 131072)
+			}
+		} else if thorough {
+			ats = []int{255, 256, 4096, 4097, 65536}
+		}
+		for k, at := range ats {
+			for _, tail := range []int{1, 3} {
+				if tail == 3 && at != 4096 && at != 65536 {
+					continue
+				}
+				out = append(out, genSpec{Slot: gs, Msgs: [][]genFieldSet{{{usable[0].Slot, 0}}, {{usable[1].Slot, 0}}}, HdrCRC: k%2 == 0, Big: (k+tail)%2 == 1,
+					LongN: at + tail, LongAt: at, Desc: fmt.Sprintf("%d messages with field %d, message #%d alone also carries field %d", at+tail, usable[0].Num, at, usable[1].Num)})
+			}
 		}
 	}
 	return out
